@@ -206,7 +206,7 @@ class Pool2Contribute(Job):
                 "10^12 units, one run per arm with units in circulation (either reserve empty, or both non-empty; the "
                 "new-pool arm is outside), divisibilities %s: " % {
                     "conservation": "(18,18), (0,18)", "fairness18": "(18,18), one-sided liquidity arms only",
-                    "fairness_lowdiv": "(0,18) (thorough also (18,0), (6,2))"}[kind])
+                    "fairness_lowdiv": "(0,18) (thorough also (18,0)), normal arm"}[kind])
         if self.fairness:
             self.what = base + ("the units minted never exceed the pro-rata share of what was actually DEPOSITED on either "
                                 "side (m/S <= deposit/reserve, one atto of slack for the 36->18 digit truncation)")
@@ -222,14 +222,14 @@ class Pool2Contribute(Job):
         if self.kind == "fairness18":
             divs = [(18, 18)]
         elif self.kind == "fairness_lowdiv":
-            divs = [(0, 18)] + ([(18, 0), (6, 2)] if tier == "thorough" else [])
+            divs = [(0, 18)] + ([(18, 0)] if tier == "thorough" else [])
         else:
             divs = [(18, 18), (0, 18)]
-        swaps = (0, 1) if tier == "thorough" else (0,)
+        swaps = (0, 1) if (tier == "thorough" and self.kind != "fairness_lowdiv") else (0,)
         if self.kind == "fairness18":
             arms = ("hi_empty", "lo_empty")     # (the normal arm at divisibility 18: the solver does not decide it -- outside)
         elif self.kind == "fairness_lowdiv":
-            arms = self.ARMS if tier == "thorough" else ("normal",)
+            arms = ("normal",)          # (every undecided query of this job waits for its cap: kept to the arm that matters)
         else:
             arms = self.ARMS
         return [{"dhi": a_, "dlo": b_, "swap": s_, "arm": arm} for (a_, b_) in divs for s_ in swaps for arm in arms]
